@@ -151,6 +151,25 @@ def install(R):
         return out
     R.np_sort = np_sort
 
+    def np_reshape(E, arr, *shape, **kw):
+        if len(shape) == 1 and isinstance(shape[0], (tuple, list)):
+            shape = tuple(shape[0])
+        if len(shape) == arr.ndim and all(s_ == -1 or _same(s_, t_) for s_, t_ in zip(shape, arr.shape)):
+            return arr
+        if arr.ndim == 1 and len(shape) == 2 and shape[1] == 1 and (shape[0] == -1 or _same(shape[0], arr.shape[0])):
+            fs = arr
+            return arr.view((arr.shape[0], 1), [("dim", 0, e[2], e[3]) if e[0] == "dim" else e for e in arr.imap])
+        if arr.ndim == 2 and len(shape) == 1 and (_same(arr.shape[1], 1)) and (shape[0] == -1 or _same(shape[0], arr.shape[0])):
+            from .npmodel import getitem as np_getitem
+            return np_getitem(R, E, arr, (slice(None, None, None), 0), None)
+        raise Unsupported("reshape %r -> %r" % (arr.shape, shape))
+
+    def _same(a, b):
+        if not is_sym(a) and not is_sym(b):
+            return a == b
+        return z3.is_true(z3.simplify(z(a) == z(b)))
+    R.np_reshape = np_reshape
+
     def unsupported(name):
         def f(E, *a, **k):
             raise Unsupported(name)
